@@ -39,7 +39,9 @@ def check_mode(b, case, ctx, plain, mode):
         def make(names):
             names = tuple(names)
             calls[kind].append(names)
-            return f'T{kind}{len(calls[kind]) - 1}'
+            # every other token carries a backslash inside (DOT escapes in label text must pass through untouched)
+            n = len(calls[kind]) - 1
+            return f'T{kind}{n}' + ('\\e' if n % 2 else '')
         return make
 
     def nohtml_tok(kind):
@@ -94,6 +96,13 @@ def check_mode(b, case, ctx, plain, mode):
                           lambda: f'label {text!r} on c{i} produced as nohtml("<...>") is not emitted as a quoted literal')
                 text = text[1:-1]
             if mode in ('token', 'nohtml'):
+                if text.endswith('\\e'):
+                    ctx.check(text[2:-2].isdigit() and int(text[2:-2]) % 2 == 1, 'label-backslash', q,
+                              lambda: f'label {text!r} on c{i}: backslash in the callback text was altered')
+                    text = text[:-2]
+                else:
+                    ctx.check('\\' not in text, 'label-backslash', q,
+                              lambda: f'label {text!r} on c{i}: backslash in the callback text was altered')
                 ctx.check(text.startswith('T' + kind) and text[2:].isdigit() and int(text[2:]) < len(calls[kind]),
                           'label-token', q, lambda: f'label {text!r} on c{i} was not produced by the callback')
                 ctx.check(calls[kind][int(text[2:])] == names, 'label-names', q,
